@@ -303,7 +303,7 @@ def r3_container_check(cx):
     if ok and len(nxt) == 1:
         li = loc[0][0]
         some_sw = [s for s in range(b.n) if b.term(s)["k"] == "switch" and not b.is_cleanup(s) and b.dominates(li, s) and
-                   any(d[0] == "stmt" and d[3]["rv"]["k"] == "discr" and op_base_local({"cp": d[3]["rv"]["pl"]}) in b.forward_locals({loc[0][1]["dest"]["l"]}) and "Option" in d[3]["rv"].get("of", "")
+                   any(d[0] == "stmt" and d[3]["rv"]["k"] == "discr" and op_base_local({"cp": d[3]["rv"]["pl"]}) in b.forward_locals({loc[0][1]["dest"]["l"]}) and d[3]["rv"].get("of", "").startswith("std::option::Option<")
                        for d in b.defs().get(op_local(b.term(s)["op"]) or -1, []))]
         good = False
         for s in some_sw:
